@@ -115,7 +115,7 @@ class Reader(object):
             raise ValueError('IDB not found')
 
         # set timestamp resolution and offset
-        self._divisor = float(1e6)  # defaults
+        self._divisor = 10 ** 6  # defaults
         self._tsoffset = 0
         for opt in idb.opts:
             if opt.code == dpng.PCAPNG_OPT_IF_TSRESOL:
@@ -123,7 +123,7 @@ class Reader(object):
                 # if MSB=1, the remaining bits is a neg power of 2 (e.g. 10 means 1/1024 of second)
                 opt_val = dpng.struct_unpack('b', opt.data)[0]
                 pow_num = 2 if opt_val & 0b10000000 else 10
-                self._divisor = float(pow_num ** (opt_val & 0b01111111))
+                self._divisor = pow_num ** (opt_val & 0b01111111)
 
             elif opt.code == dpng.PCAPNG_OPT_IF_TSOFFSET:
                 # 64-bit int that specifies an offset (in seconds) that must be added to the
